@@ -1,6 +1,7 @@
 import MemcVerif.Model.Conn
 import MemcVerif.Model.Policy
 import MemcVerif.Model.Server
+import MemcVerif.Model.Conc
 /-!
 # Line-protocol driver: runs the executable model on the operations the harness ran on the real code.
 One input line, one output line.
@@ -18,6 +19,41 @@ structure DState where
   pol : Option Policy := none
   srv : Srv := Srv.init 1
   stalled : List Nat := []
+  cthreads : List (List CCmd) := []
+
+/-- the `MemcStore` command a decoded request stands for (loud opcodes of the sched suite) -/
+def reqCCmd (req : Req) : Option CCmd :=
+  let h := req.header
+  match req with
+  | .get _ key => some (.get key)
+  | .delete _ key => some (.delete key h.cas)
+  | .set _ flags exp key value =>
+    let nr := Record.new value h.cas flags exp
+    some (if isSetOp h.opcode then .set key nr else if isAddOp h.opcode then .add key nr else .replace key nr)
+  | .append _ key value =>
+    let nr := Record.new value h.cas 0 0
+    some (if isAppendOp h.opcode then .append key nr else .prepend key nr)
+  | .delta _ delta initial exp key => some (.delta key (Meta.new h.cas h.opaq exp) delta initial (isIncrOp h.opcode))
+  | .flush _ exp => some (.flush exp)
+  | _ => none
+
+def canonRes : CRes → String
+  | .hit r => s!"hit:{toHexD r.value}:{r.header.flags}:{r.header.cas}"
+  | .stored c => s!"ok:{c}"
+  | .counter c v => s!"cnt:{c}:{v}"
+  | .deleted => "ok:0"
+  | .done => "ok:0"
+  | .err e => s!"err:{e.code}"
+
+def canonResp (o : Option Resp) : String :=
+  match o with
+  | none => "silent"
+  | some (.error h _) => s!"err:{h.status}"
+  | some (.get h fl _ v) => s!"hit:{toHexD v}:{fl}:{h.cas}"
+  | some (.counter h v) => s!"cnt:{h.cas}:{v}"
+  | some (.plain h) => s!"ok:{h.cas}"
+  | some (.quit h) => s!"ok:{h.cas}"
+  | some (.version h _) => s!"ok:{h.cas}"
 
 def insertSorted (x : String × String) : List (String × String) → List (String × String)
   | [] => [x]
@@ -122,6 +158,43 @@ def step (d : DState) (line : String) : DState × String :=
     ({ d with srv := victims.foldl (fun s i => s.step (.finish i)) d.srv, stalled := d.stalled.filter (fun i => ks.contains i) }, "ok")
   | ["probe"] =>
     (d, ("served " ++ " ".intercalate (((d.srv.served.filter (fun i => !d.stalled.contains i)).toArray.qsort (· < ·)).toList.map toString)).trimAsciiEnd.toString)
+  | ["cnew", n] =>
+    match n.toNat? with
+    | some k => ({ limit := k }, "ok")
+    | none => (d, "bad-op")
+  | ["cnow", n] =>
+    match n.toNat? with
+    | some k => ({ d with now := k }, "ok")
+    | none => (d, "bad-op")
+  | ["creq", hx] =>
+    match fromHex hx with
+    | some b =>
+      match Codec.decode d.limit .none b with
+      | (.frame r, _, _) =>
+        let (s', o) := handleRequest memOps d.store d.now r
+        ({ d with store := s' }, canonResp o)
+      | _ => (d, "silent")
+    | none => (d, "bad-op")
+  | "thread" :: i :: frames =>
+    match i.toNat? with
+    | some k =>
+      let cmds := frames.filterMap (fun hx => match fromHex hx with
+        | some b => match Codec.decode d.limit .none b with
+          | (.frame r, _, _) => reqCCmd r
+          | _ => none
+        | none => none)
+      let padded := d.cthreads ++ List.replicate (k + 1 - d.cthreads.length) []
+      ({ d with cthreads := padded.set k cmds }, "ok")
+    | none => (d, "bad-op")
+  | "sched" :: ids =>
+    let sched := ids.filterMap (·.toNat?)
+    let n := d.cthreads.length
+    let completion := (List.replicate 12 (List.range n)).flatten
+    let sys : Sys := { store := d.store, threads := d.cthreads.map (fun c => { todo := c }) }
+    let sys' := sys.run d.now (sched ++ completion)
+    let res := (List.range n).zip sys'.threads |>.map (fun (i, t) => s!"t{i}=" ++ ",".intercalate (t.results.map canonRes))
+    ({ d with store := sys'.store, cthreads := [] }, "res " ++ " ".intercalate res ++ " | " ++ dumpMem sys'.store.mem)
+  | "stress" :: _ => (d, "ok")
   | "evict" :: ks =>
     match d.pol with
     | none => (d, "bad-op")
